@@ -92,4 +92,29 @@ theorem C16_cumulative (l : List ℚ) (acc : ℚ) :
 
 example : cumsumL [1, 2, 3] 0 = [1, 3, 6] := by decide +kernel
 
+/-- **`cumulative_frequencies` is the running sum, entry by entry** (sixth session; `C16_cumulative` gave
+    the length and the last entry): entry `k` is the sum of the contents of bins `0 … k`. -/
+theorem C16_cumulative_entries (l : List ℚ) (acc : ℚ) (k : Nat) (hk : k < l.length) :
+    (cumsumL l acc)[k]? = some (acc + (l.take (k + 1)).sum) := by
+  induction l generalizing acc k with
+  | nil => simp at hk
+  | cons x xs ih =>
+    cases k with
+    | zero => simp [cumsumL]
+    | succ k =>
+      have := ih (acc + x) k (by simpa using hk)
+      simp only [cumsumL, List.getElem?_cons_succ, List.take_succ_cons, List.sum_cons]
+      rw [this, add_assoc]
+
+/-- consecutive cumulative entries differ by the content of the bin between them, so the contents are
+    recovered from the cumulative values and, for non-negative contents, the cumulative values never decrease -/
+theorem C16_cumulative_step (l : List ℚ) (acc : ℚ) (k : Nat) (hk : k + 1 < l.length) :
+    ∃ a b x, (cumsumL l acc)[k]? = some a ∧ (cumsumL l acc)[k + 1]? = some b ∧ l[k + 1]? = some x ∧ b = a + x := by
+  refine ⟨_, _, l[k + 1], C16_cumulative_entries l acc k (by omega), C16_cumulative_entries l acc (k + 1) hk,
+    by simp [hk], ?_⟩
+  rw [List.take_add_one (i := k + 1), List.sum_append]
+  simp [hk, add_assoc]
+
+example : (cumsumL [1, 2, 3, 4] 0)[2]? = some (0 + ([1, 2, 3, 4].take 3).sum) := C16_cumulative_entries _ _ 2 (by simp)
+
 end Physt
